@@ -1027,9 +1027,20 @@ impl Hook for CrashHook {
 fn recover(run: &Run, cfg: &Cfg, img: &[u8], lives: &[(Meta4, u8)], ctx: &str, at: &str, case: &Value) {
   type S = sync::Arena;
   let p = fresh_path("c06img");
-  std::fs::write(&p, img).unwrap();
+  // the arena window starts at `file_offset` of the file; what lies in front of it is not the arena's
+  let foff = cfg.file_offset as usize;
+  if foff > 0 {
+    let mut f: Vec<u8> = (0..foff).map(|i| 0x5A ^ (i as u8)).collect();
+    f.extend_from_slice(img);
+    std::fs::write(&p, &f).unwrap();
+  } else {
+    std::fs::write(&p, img).unwrap();
+  }
   let bad = |class: &str, msg: String| viol(run, "C06", class, format!("[{} | crash {}] {}", ctx, at, msg), case.clone());
-  let a: S = match open::<S>(&p, open_opts(cfg, CapOpt::Same, false), Mode::MapMut) {
+  // the reopen after a crash names the capacity or not, with or without the `create` flag (the file exists)
+  let variant = hash_of(&(at, ctx.len(), img.len())) % 4;
+  let (capo, create) = [(CapOpt::Same, false), (CapOpt::Same, true), (CapOpt::Absent, false), (CapOpt::Absent, true)][variant as usize];
+  let a: S = match open::<S>(&p, open_opts(cfg, capo, create), Mode::MapMut) {
     Ok(a) => a,
     Err(e) => {
       bad("image-does-not-open", format!("{}", e));
@@ -1041,6 +1052,9 @@ fn recover(run: &Run, cfg: &Cfg, img: &[u8], lives: &[(Meta4, u8)], ctx: &str, a
   let al = a.allocated();
   if al < a.data_offset() || al > a.capacity() {
     bad("cursor-out-of-range", format!("cursor {} outside [{}, {}]", al, a.data_offset(), a.capacity()));
+  }
+  if a.capacity() != img.len() {
+    bad("capacity-after-recovery", format!("capacity {} after the reopen ({:?}, create={}), the crashed arena had {}", a.capacity(), capo, create, img.len()));
   }
   for (m, pat) in lives {
     if m.1 > 0 && a.memory()[m.0..m.0 + m.1].iter().any(|b| b != pat) {
@@ -1313,6 +1327,12 @@ pub fn check_c06(tier: Tier) -> i32 {
       items.push(c);
     }
   }
+  {
+    // an arena that starts at an offset of its file
+    let mut c = Cfg::new(Fl::Optimistic, Backend::File, true, 256);
+    c.file_offset = 4096;
+    items.push(c);
+  }
   // every crash image is written to a file and mapped: work items (cell, start state) go to single-threaded
   // child processes (shard.rs); the unsync and the concurrent part run in the parent
   let depth = if thorough { 5 } else { 4 };
@@ -1363,7 +1383,7 @@ pub fn check_c06(tier: Tier) -> i32 {
   }
   c06_concurrent(&run, thorough);
   run.sample(|| json!({"cfg": "sync Optimistic file arena", "start": "full-2eq", "history": "B(7) B(16)", "crash_images": "one image before every atomic access and before the zeroing of the last operation, plus one after it", "recovery": "map_mut, cursor in range, pre-crash live ranges intact, probe workload (allocations, releases, discard_freelist) terminates under an event budget and never re-issues a live range"}));
-  run.rule("for every history of depth 4 (thorough: 5) from 5 start states in 6 cells: the shared mapping is copied before every atomic access (and before the zeroing) of the last operation and after it; every image is written to a file, reopened writable and put through the recovery oracle; unsync: image at every operation boundary; evaluations = crash images recovered; states = distinct images");
+  run.rule("for every history of depth 4 (thorough: 5) from 5 start states in 7 cells (one at file offset 4096): the shared mapping is copied before every atomic access (and before the zeroing) of the last operation and after it; every image is written to a file, reopened writable and put through the recovery oracle; unsync: image at every operation boundary; evaluations = crash images recovered; states = distinct images");
   run.set("bounds", json!({"depth": depth, "alphabet": alphabet.iter().map(|o| o.short()).collect::<Vec<_>>(), "probe_budget_events_per_call": 600}));
   run.assume("crash model: process kill with the page cache intact (no torn pages, no reordering of write-back)");
   run.finish()
